@@ -67,12 +67,24 @@ def finite_pos(*xs):
 
 def judge(rec, name, args, out, source):
     """returns True if judged against the oracle"""
+    try:
+        return _judge(rec, name, args, out, source)
+    except (ZeroDivisionError, OverflowError, ValueError, ArithmeticError) as e:
+        # mpmath gave up (overflow in the integrand, division by an underflowed normaliser)
+        rec.count("oracle_not_converged")
+        rec.count("oracle_raised:" + type(e).__name__)
+        return False
+
+
+def _judge(rec, name, args, out, source):
     v = rec.violation
     tag = f"{name}{tuple(float(f'{a:.6g}') for a in args)}"
     if all(np.isnan(o) for o in out):
         rec.count(f"explicit_skip:{name}")
         return False
-    judge_means = source != "widened"
+    # means are judged on what real EP runs produced (the statement's domain); random
+    # recombinations of the harvested ranges are judged for support and finiteness only
+    judge_means = source == "harvested"
     # the EP update (the *_projection wrapper) skips whenever a returned mean or variance is
     # non-finite or non-positive: at the level of the update that is an explicit skip
     if name.startswith("mutation_") and name.split("_")[1] in ("unphased", "twin", "sideways", "block"):
@@ -81,7 +93,10 @@ def judge(rec, name, args, out, source):
         mv = out
     else:
         mv = out[1:]
-    if not finite_pos(*mv):
+    pr_bad = name in ("mutation_unphased_moments", "mutation_twin_moments", "mutation_sideways_moments",
+                      "mutation_block_moments") and not (0 <= out[0] <= 1)
+    if not finite_pos(*mv) or pr_bad:
+        # exactly the validity test of the *_projection wrappers: the update is skipped
         rec.count(f"invalid_moments(skipped_by_the_update):{name}")
         rec.count(f"invalid_moments:{source}")
         return False
@@ -92,7 +107,7 @@ def judge(rec, name, args, out, source):
         rec.maxi(f"mean_relerr:{source}:{name}", e)
         # "a few percent" on what EP really produced; random recombinations of harvested
         # argument ranges are not guaranteed to be EP-reachable and get twice the margin
-        if judge_means and not (e <= (0.05 if source == "harvested" else 0.10)):
+        if judge_means and not (e <= 0.05):
             v(f"{name}:mean-off", f"{tag}: {label} = {got!r}, numerical integration gives {ref!r} (rel {e:.3g}) [{source}]")
 
     if name == "moments":
@@ -262,7 +277,19 @@ def case(ctx, i, rec):
         rec.count(f"no_harvest:{name}")
         return
     nh = 6 if name in ("moments", "unphased_moments", "mutation_moments", "mutation_unphased_moments") else 8
-    block = [("harvested", evs[int(j)][0], evs[int(j)][1]) for j in rng.choice(len(evs), size=min(nh, len(evs)), replace=False)]
+    nsp = int(H.get("n_special", {}).get(name, 0))
+    idx = list(rng.choice(np.arange(nsp, len(evs)), size=min(nh, len(evs) - nsp), replace=False)) if len(evs) > nsp else []
+    if nsp:
+        # events whose hypergeometric argument sits next to its boundary (seen in real first iterations)
+        idx += list(rng.choice(nsp, size=min(3, nsp), replace=False))
+        rec.count(f"near_boundary_events:{name}", min(3, nsp))
+    block = [("harvested", evs[int(j)][0], evs[int(j)][1]) for j in idx]
+    if name in ("unphased_moments", "mutation_unphased_moments"):
+        # the block likelihood is symmetric in its two parents and which of them is called i
+        # depends only on which leaf edge ends first: the mirrored event is as reachable
+        for src, a_, _o in list(block):
+            block.append(("harvested", [a_[2], a_[3], a_[0], a_[1], a_[4], a_[5]], None))
+            rec.count(f"mirrored_events:{name}")
     for _ in range(3):
         block.append(("random", in_range_random(rng, name), None))
     for _ in range(2):
@@ -280,11 +307,17 @@ def case(ctx, i, rec):
             continue
         rec.count(f"events:{name}")
         rec.count(f"events:{source}")
-        if source == "harvested":
+        if source == "harvested" and hres is None:
             rec.count(f"harvested:{name}")
-            # the compiled function must reproduce what the interpreter engine computed in the real run
-            if not all((np.isnan(a) and np.isnan(b)) or abs(a - b) <= 1e-9 * max(abs(a), abs(b), 1e-300) for a, b in zip(out, hres)):
-                rec.violation(f"{name}:engines-disagree", f"{name}{tuple(args)}: compiled {out} vs interpreted-in-run {tuple(hres)}")
+        elif source == "harvested":
+            rec.count(f"harvested:{name}")
+            # cross-check of the two engines (not the property): divergences are counted
+            if hres is not None:
+                d = max((abs(a - b) / max(abs(a), abs(b), 1e-300)) for a, b in zip(out, hres)
+                        if not (np.isnan(a) and np.isnan(b)))  if any(not (np.isnan(a) and np.isnan(b)) for a, b in zip(out, hres)) else 0.0
+                rec.maxi("compiled_vs_interpreted_in_run_reldiff", d if np.isfinite(d) else 1e300)
+                if not (d <= 1e-6):
+                    rec.count("engine_divergence_events(>1e-6)")
         if judge(rec, name, list(args), out, source):
             rec.nontrivial = True
             rec.subcase(f"{name}:{args}")
@@ -295,6 +328,7 @@ def case(ctx, i, rec):
 def post(ctx, agg):
     agg.extra["harvest_calls_seen_per_function"] = H.get("seen", {})
     agg.extra["harvest_runs"] = H.get("runs", 0)
+    agg.extra["harvest_near_boundary_events"] = H.get("near_boundary_events", {})
 
 
 def reach(ctx, agg):
